@@ -1,6 +1,6 @@
 From Coq Require Import extraction.Extraction extraction.ExtrOcamlBasic.
-From TU Require Import Base C17_Model C17_UAX29.
-Definition run := run_C17.
-Definition check := check_C17.
-Definition agree (inp m i : val) : bool := agree_C17 inp m i && uax29_agree inp.
+From TU Require Import Base C17_Model C17_UAX29 C17_Float.
+Definition run := run_C17F.
+Definition check := check_C17F.
+Definition agree (inp m i : val) : bool := agree_C17F inp m i && uax29_agree inp.
 Extraction "model.ml" run check agree.
